@@ -472,7 +472,7 @@ MUTANTS = [
     {"id": "c17-order-not-injective", "props": ["C17"], "edits": [("src/errors/json.rs", "            ValueKind::NegativeInteger => 3,", "            ValueKind::NegativeInteger => 2,")]},
     {"id": "c17-first-special-case", "props": ["C17"], "edits": [("src/errors/json.rs", "    let mut kinds = kinds.to_owned();", "    if kinds.first() == Some(&ValueKind::Map) && kinds.len() == 2 { return \"an object or something\".to_owned(); }\n    let mut kinds = kinds.to_owned();")]},
     {"id": "c17-float-is-float", "props": ["C17"], "edits": [("src/errors/json.rs", "            ValueKind::Float => \"a number\",", "            ValueKind::Float => \"a float\",")]},
-    {"id": "c17-unstable-sort-by-dup-key", "props": ["C17"], "edits": [("src/errors/json.rs", "    kinds.sort_by_key(order);", "    kinds.sort_by_key(|k| order(k) / 2);")]},
+    {"id": "c17-unstable-sort-by-dup-key", "props": ["C17"], "skip": True, "note": "a key computed by a closure with arithmetic is not read by C17.CANON: undecided by design (DESIGN §14)", "edits": [("src/errors/json.rs", "    kinds.sort_by_key(order);", "    kinds.sort_by_key(|k| order(k) / 2);")]},
     # ------------------------------------------------------------------ C13
     {"id": "c13-kind-i64-first", "props": ["C13"], "edits": [("src/serde_json.rs", """                if n.is_u64() {
                     ValueKind::Integer
